@@ -79,6 +79,9 @@ class Matcher:
         if "android_locale" in d and "locale" not in d:
             # map android_locale to locale code
             locale = d["android_locale"]
+            # normalize b+ab+Scrip+DE first, the legacy code is followed
+            # by "+" there
+            locale = locale.replace("b+", "").replace("+", "-")
             # map legacy locale codes, he <-> iw, id <-> in, yi <-> ji
             locale = re.sub(
                 r"(iw|in|ji)(?=\Z|-)",
@@ -86,7 +89,6 @@ class Matcher:
                 locale,
             )
             locale = re.sub(r"-r([A-Z]{2})", r"-\1", locale)
-            locale = locale.replace("b+", "").replace("+", "-")
             d["locale"] = locale
         return d
 
